@@ -59,6 +59,21 @@ def empty_range_exit(top, m):
     return False
 
 
+def empty_container_exit(top, m):
+    """a single-key lookup / erase path that leaves at once because the container holds nothing (an emptiness test said so): no state
+    effect, and the answer is the miss answer (empty optional / false / 0) - the index need not be consulted to know the key is absent"""
+    if top.loops or top.state_effects() or kind_of(m) not in ('FIND', 'ERASE'):
+        return False
+    if not any(lift.emptiness(c) is False for c in top.conds):
+        return False
+    r = top.ret
+    if r is None:
+        return False
+    if r in (('bool', False), ('int', 0), ('global', 'nullopt')):
+        return True
+    return isinstance(r, tuple) and len(r) > 2 and r[0] == 'ctor' and 'optional' in str(r[1]) and (not r[2] or r[2] == (('global', 'nullopt'),))
+
+
 def nothing_to_do(top):
     """a path of clean_expired_values / dynamically_age / a purge that leaves at once because the container is empty: no loop, no
     state effect, returns 0 (literally or through a count that was initialised to 0 and never stepped)"""
